@@ -149,11 +149,12 @@ class Linked(object):
 
 
 class SubSuper(object):
-    def __init__(self, numb, super_kl, subs, where='pkg'):
+    def __init__(self, numb, super_kl, subs, where='pkg', super_oid=0):
         self.numb = numb
         self.super_kl = super_kl
         self.subs = list(subs)    # [(sub key letters, [(sub attr, super attr)])]
         self.where = where
+        self.super_oid = super_oid     # which identifier of the supertype the subtypes refer to
 
 
 class Callable_(object):
@@ -405,12 +406,12 @@ def build(d, rows=None):
                 for _, p in pairs:
                     if p not in keys:
                         keys.append(p)
-            so = rto(r.super_kl, rel, 0, keys)
+            so = rto(r.super_kl, rel, r.super_oid, keys)
             R.add('R_SUPER', Obj_ID=obj[r.super_kl], Rel_ID=rel, OIR_ID=so)
             for kl, pairs in r.subs:
                 go = rgo(kl, rel)
                 R.add('R_SUB', Obj_ID=obj[kl], Rel_ID=rel, OIR_ID=go)
-                refs(kl, go, r.super_kl, so, rel, 0, pairs)
+                refs(kl, go, r.super_kl, so, rel, r.super_oid, pairs)
 
     # functions, external entities, constants
     for fn, where in d.functions:
